@@ -440,4 +440,10 @@ def run(ctx, report: Report) -> None:
     from .sem import default_button_table
     default_button_table(ctx, r3)
 
+    # ---- R5 (the whole pipeline by interpretation, bounded) --------------------------------------------------------------
+    r5 = report.rule('C04-R5', 'a compiled selector answers the same after any sequence of other queries (bounded)', floor=4)
+    from .e2ematch import history_table
+    history_table(ctx, r5)
+
+
 
